@@ -1,6 +1,273 @@
-(* C06 -- placeholder while the proofs are being written *)
-From PyRTL Require Import Front.Ops.
+(* C06 -- Hardware operators compute exact integer results at the documented widths.
+   Statements only; proofs live in Front/{PySliceProofs,OpsProofs,SignedProofs,BarrelProofs,KindsProofs}.v.
 
-Theorem mul_width_refuted : exists a b : sv, wd (op_mul a b) <> wd a + wd b.
-Proof. exists (0, 3), (0, 5). vm_compute. discriminate. Qed.
+   The model (Front/Ops.v, PySlice.v, Signed.v, Barrel.v) builds every operator the way
+   pyrtl/wire.py, corecircuits.py and rtllib/barrel.py build it out of primitive nets whose
+   meaning is the reference semantics Netlist/Sem.v.  A wire value is sv = (value, bitwidth);
+   wf a := 1 <= wd a /\ 0 <= val a < 2^(wd a).  Every theorem is for ALL widths and ALL values. *)
+From Coq Require Import ZArith List Bool Lia.
+From PyRTL Require Import Front.Ops Front.Signed Front.Barrel.
+From PyRTL Require Import Front.PySliceProofs Front.OpsProofs Front.SignedProofs Front.BarrelProofs
+                          Front.KindsProofs.
+Open Scope Z_scope.
+
+(* ------------------------------------------------------------------ + - *  *)
+Theorem C06_add_exact : forall a b, wf a -> wf b ->
+  op_add a b = (val a + val b, Z.max (wd a) (wd b) + 1).
+Proof. exact OpsProofs.add_exact. Qed.
+Print Assumptions C06_add_exact.
+
+Theorem C06_sub_wrap : forall a b, wf a -> wf b ->
+  op_sub a b = ((val a - val b) mod 2 ^ (Z.max (wd a) (wd b) + 1), Z.max (wd a) (wd b) + 1).
+Proof. exact OpsProofs.sub_wrap. Qed.
+Print Assumptions C06_sub_wrap.
+
+(* the product is exact; its width is what the code builds: twice the wider operand *)
+Theorem mul_exact : forall a b, wf a -> wf b ->
+  op_mul a b = (val a * val b, Z.max (wd a) (wd b) * 2).
+Proof. exact OpsProofs.mul_exact. Qed.
+Print Assumptions mul_exact.
+
+(* the property's width clause for `*` ("sum of widths") -- FALSE of the code when the operand
+   widths differ (finding F14); kept visible, refuted by a witness, proved for equal widths *)
+Definition C06_mul_width_full_statement : Prop :=
+  forall a b, wf a -> wf b -> wd (op_mul a b) = wd a + wd b.
+
+Theorem mul_width_refuted : exists a b, wf a /\ wf b /\ wd (op_mul a b) <> wd a + wd b.
+Proof. exact OpsProofs.mul_width_refuted. Qed.
 Print Assumptions mul_width_refuted.
+
+Theorem C06_mul_width_partial : forall a b, wf a -> wf b ->
+  (wd a = wd b -> wd (op_mul a b) = wd a + wd b) /\ wd a + wd b <= wd (op_mul a b).
+Proof. exact OpsProofs.mul_width_partial. Qed.
+Print Assumptions C06_mul_width_partial.
+
+(* ------------------------------------------------------------------ comparisons: unsigned order, 1 bit *)
+Theorem C06_comparisons : forall a b, wf a -> wf b ->
+  op_lt a b = (b2z (val a <? val b), 1) /\ op_le a b = (b2z (val a <=? val b), 1) /\
+  op_gt a b = (b2z (val a >? val b), 1) /\ op_ge a b = (b2z (val a >=? val b), 1) /\
+  op_eq a b = (b2z (val a =? val b), 1) /\ op_ne a b = (b2z (negb (val a =? val b)), 1).
+Proof. exact OpsProofs.comparisons. Qed.
+Print Assumptions C06_comparisons.
+
+(* ------------------------------------------------------------------ bitwise after zero-extension *)
+Theorem C06_bitwise_zero_ext : forall a b, wf a -> wf b ->
+  let m := Z.max (wd a) (wd b) in
+  op_and a b = (Z.land (val a) (val b), m) /\ op_or a b = (Z.lor (val a) (val b), m) /\
+  op_xor a b = (Z.lxor (val a) (val b), m) /\ op_nand a b = (2 ^ m - 1 - Z.land (val a) (val b), m).
+Proof. exact OpsProofs.bitwise. Qed.
+Print Assumptions C06_bitwise_zero_ext.
+
+Theorem C06_invert : forall a, wf a -> op_invert a = (2 ^ wd a - 1 - val a, wd a).
+Proof. exact OpsProofs.invert_spec. Qed.
+Print Assumptions C06_invert.
+
+Theorem C06_select : forall a b s, wf a -> wf b ->
+  select s a b = (if val s =? 0 then val b else val a, Z.max (wd a) (wd b)).
+Proof. exact (fun a b s Ha Hb => OpsProofs.select_mux a b Ha Hb s). Qed.
+Print Assumptions C06_select.
+
+(* ------------------------------------------------------------------ slicing: Python index semantics *)
+(* result bit j is source bit indices[j]; the width is the number of selected indices *)
+Theorem C06_getitem_spec : forall a it r, getitem a it = Some r ->
+  exists idx, getitem_indices (wd a) it = Some idx /\
+    wd r = Z.of_nat (length idx) /\ inrange (val r) (wd r) /\
+    forall j, 0 <= j < wd r -> Z.testbit (val r) j = Z.testbit (val a) (nth (Z.to_nat j) idx 0).
+Proof. exact OpsProofs.getitem_spec. Qed.
+Print Assumptions C06_getitem_spec.
+
+(* the executable slice model = the declarative definition of Python slicing
+   (is_slice_of: Language Reference, "s[i:j:k]"; bit 0 = LSB), and every index is a valid bit *)
+Theorem C06_slice_model_is_python_slicing : forall n s e st l, 0 <= n ->
+  (slice_indices n s e st = Some l <-> is_slice_of n s e st l).
+Proof. exact PySliceProofs.slice_indices_iff. Qed.
+Print Assumptions C06_slice_model_is_python_slicing.
+
+Theorem C06_slice_step_zero : forall n s e st, slice_indices n s e st = None <-> st = Some 0.
+Proof. exact PySliceProofs.slice_indices_none_iff. Qed.
+Print Assumptions C06_slice_step_zero.
+
+Theorem C06_getitem_indices_valid : forall n it l x, 0 <= n ->
+  getitem_indices n it = Some l -> l <> [] /\ (In x l -> 0 <= x < n).
+Proof. exact PySliceProofs.getitem_indices_valid. Qed.
+Print Assumptions C06_getitem_indices_valid.
+
+Theorem C06_int_index : forall n i,
+  index_int n i = if (0 <=? i) && (i <? n) then Some i
+                  else if (- n <=? i) && (i <? 0) then Some (i + n) else None.
+Proof. exact PySliceProofs.index_int_spec. Qed.
+Print Assumptions C06_int_index.
+
+(* the contiguous forms: a[:k] (truncate), a[k:], a[-1] *)
+Theorem C06_truncate : forall a n, wf a -> 1 <= n ->
+  truncate a n = if wd a <? n then None else Some (val a mod 2 ^ n, n).
+Proof. exact OpsProofs.truncate_spec. Qed.
+Print Assumptions C06_truncate.
+
+Theorem C06_slice_from : forall a k, wf a -> 0 <= k < wd a ->
+  getitem a (ISlice (Some k) None None) = Some (val a / 2 ^ k, wd a - k).
+Proof. exact OpsProofs.getitem_from. Qed.
+Print Assumptions C06_slice_from.
+
+Theorem C06_msb : forall a, wf a -> msb a = (b2z (Z.testbit (val a) (wd a - 1)), 1).
+Proof. exact OpsProofs.msb_spec. Qed.
+Print Assumptions C06_msb.
+
+(* ------------------------------------------------------------------ concat: first argument most significant *)
+Theorem C06_concat_first_msb : forall args, Forall wf args -> args <> [] ->
+  concat args = (concat_val args, sumw args).
+Proof. exact OpsProofs.concat_first_msb. Qed.
+Print Assumptions C06_concat_first_msb.
+
+Theorem C06_concat2 : forall a b, wf a -> wf b ->
+  concat [a; b] = (val a * 2 ^ wd b + val b, wd a + wd b).
+Proof. exact OpsProofs.concat2. Qed.
+Print Assumptions C06_concat2.
+
+(* ------------------------------------------------------------------ <<= and extension *)
+Theorem C06_ilshift_zero_ext_or_trunc : forall a dw, wf a -> 1 <= dw ->
+  exists r, ilshift (Some dw) (OWire a) = Some r /\ wd r = dw /\
+    (wd a <= dw -> val r = val a) /\ (dw < wd a -> val r = val a mod 2 ^ dw).
+Proof. exact OpsProofs.ilshift_zero_ext_or_trunc. Qed.
+Print Assumptions C06_ilshift_zero_ext_or_trunc.
+
+Theorem C06_ilshift_nowidth : forall a, wf a -> ilshift None (OWire a) = Some a.
+Proof. exact OpsProofs.ilshift_nowidth. Qed.
+Print Assumptions C06_ilshift_nowidth.
+
+Theorem C06_zero_extended : forall a n, wf a ->
+  zero_extended a n = if n <? wd a then None else Some (val a, n).
+Proof. exact OpsProofs.zero_extended_spec. Qed.
+Print Assumptions C06_zero_extended.
+
+Theorem C06_sign_extended : forall a n, wf a ->
+  sign_extended a n = if n <? wd a then None else Some (sval a mod 2 ^ n, n).
+Proof. exact OpsProofs.sign_extended_spec. Qed.
+Print Assumptions C06_sign_extended.
+
+(* sign extension keeps the two's-complement value *)
+Theorem C06_sign_ext_keeps_value : forall a n, wf a -> wd a <= n ->
+  sign_ext a n = (sval a mod 2 ^ n, n) /\ wf (sign_ext a n) /\ sval (sign_ext a n) = sval a.
+Proof. exact OpsProofs.sign_ext_spec. Qed.
+Print Assumptions C06_sign_ext_keeps_value.
+
+(* ------------------------------------------------------------------ signed helpers, mixed widths *)
+Theorem C06_signed_add_exact : forall a b, wf a -> wf b ->
+  wd (signed_add a b) = Z.max (wd a) (wd b) + 1 /\ sval (signed_add a b) = sval a + sval b.
+Proof. exact SignedProofs.signed_add_exact. Qed.
+Print Assumptions C06_signed_add_exact.
+
+Theorem C06_signed_mult_exact : forall a b, wf a -> wf b ->
+  wd (signed_mult a b) = wd a + wd b /\ sval (signed_mult a b) = sval a * sval b.
+Proof. exact SignedProofs.signed_mult_exact. Qed.
+Print Assumptions C06_signed_mult_exact.
+
+Theorem C06_signed_lt : forall a b, wf a -> wf b -> signed_lt a b = (b2z (sval a <? sval b), 1).
+Proof. exact SignedProofs.signed_lt_spec. Qed.
+Print Assumptions C06_signed_lt.
+
+Theorem C06_signed_le : forall a b, wf a -> wf b -> signed_le a b = (b2z (sval a <=? sval b), 1).
+Proof. exact SignedProofs.signed_le_spec. Qed.
+Print Assumptions C06_signed_le.
+
+Theorem C06_signed_gt : forall a b, wf a -> wf b -> signed_gt a b = (b2z (sval a >? sval b), 1).
+Proof. exact SignedProofs.signed_gt_spec. Qed.
+Print Assumptions C06_signed_gt.
+
+Theorem C06_signed_ge : forall a b, wf a -> wf b -> signed_ge a b = (b2z (sval a >=? sval b), 1).
+Proof. exact SignedProofs.signed_ge_spec. Qed.
+Print Assumptions C06_signed_ge.
+
+(* ------------------------------------------------------------------ barrel shifter and shift_* *)
+(* full shift by the VALUE of the amount wire, any amount width (saturating once the amount
+   reaches the data width), either direction (dir <> 0: up/left), vacated bits = bit_in *)
+Theorem C06_barrel_full_shift : forall x fw f dir dist, 1 <= fw -> inrange x fw -> wf dist ->
+  barrel_shifter (x, fw) (b2z f, 1) dir dist =
+  (if negb (val dir =? 0) then shl_fill x fw f (val dist) else shr_fill x fw f (val dist), fw).
+Proof. exact BarrelProofs.barrel_full_shift. Qed.
+Print Assumptions C06_barrel_full_shift.
+
+(* what shl_fill / shr_fill mean, bit by bit *)
+Theorem C06_shift_fill_bits : forall x w f m j, 0 <= m -> inrange x w -> 0 <= j < w ->
+  Z.testbit (shl_fill x w f m) j = (if j <? m then f else Z.testbit x (j - m)) /\
+  Z.testbit (shr_fill x w f m) j = (if j + m <? w then Z.testbit x (j + m) else f).
+Proof. exact BarrelProofs.shift_fill_bits. Qed.
+Print Assumptions C06_shift_fill_bits.
+
+Theorem C06_shift_left_logical : forall bits amt, wf bits -> wf amt ->
+  shift_left_logical bits amt = ((val bits * 2 ^ val amt) mod 2 ^ wd bits, wd bits).
+Proof. exact BarrelProofs.shift_left_logical_spec. Qed.
+Print Assumptions C06_shift_left_logical.
+
+Theorem C06_shift_left_arithmetic : forall bits amt, wf bits -> wf amt ->
+  shift_left_arithmetic bits amt = ((val bits * 2 ^ val amt) mod 2 ^ wd bits, wd bits).
+Proof. exact BarrelProofs.shift_left_arithmetic_spec. Qed.
+Print Assumptions C06_shift_left_arithmetic.
+
+Theorem C06_shift_right_logical : forall bits amt, wf bits -> wf amt ->
+  shift_right_logical bits amt = (val bits / 2 ^ val amt, wd bits).
+Proof. exact BarrelProofs.shift_right_logical_spec. Qed.
+Print Assumptions C06_shift_right_logical.
+
+(* arithmetic right shift = floor division of the two's-complement value *)
+Theorem C06_shift_right_arithmetic : forall bits amt, wf bits -> wf amt ->
+  wd (shift_right_arithmetic bits amt) = wd bits /\
+  sval (shift_right_arithmetic bits amt) = sval bits / 2 ^ val amt.
+Proof. exact BarrelProofs.shift_right_arithmetic_signed. Qed.
+Print Assumptions C06_shift_right_arithmetic.
+
+(* Python-int amounts 1..width-1: same function as the wire-amount form *)
+Theorem C06_const_shifts : forall bits k, wf bits -> 1 <= k <= wd bits - 1 ->
+  sll_const bits k = Some ((val bits * 2 ^ k) mod 2 ^ wd bits, wd bits) /\
+  sla_const bits k = Some ((val bits * 2 ^ k) mod 2 ^ wd bits, wd bits) /\
+  srl_const bits k = Some (val bits / 2 ^ k, wd bits) /\
+  sra_const bits k = Some (shr_fill (val bits) (wd bits) (Z.testbit (val bits) (wd bits - 1)) k, wd bits).
+Proof. exact BarrelProofs.const_shifts. Qed.
+Print Assumptions C06_const_shifts.
+
+Theorem C06_const_shift_agrees : forall bits k wk, wf bits -> 1 <= k <= wd bits - 1 -> wf (k, wk) ->
+  sll_const bits k = Some (shift_left_logical bits (k, wk)) /\
+  srl_const bits k = Some (shift_right_logical bits (k, wk)) /\
+  sra_const bits k = Some (shift_right_arithmetic bits (k, wk)).
+Proof. exact BarrelProofs.const_shift_agrees. Qed.
+Print Assumptions C06_const_shift_agrees.
+
+(* ------------------------------------------------------------------ operand kinds *)
+(* int / bool / Verilog-string operands ARE the equivalent Const (as_wires builds exactly that
+   Const), and the Const has the documented value and width *)
+Theorem C06_operand_kinds_agree : forall f (c : operand) x,
+  (forall a, c <> OWire a) -> (forall o bw s, c <> OConst o bw s) ->
+  lift2 f x c = lift2 f x (OConst c None false).
+Proof. exact KindsProofs.operand_kinds_agree. Qed.
+Print Assumptions C06_operand_kinds_agree.
+
+Theorem C06_const_int_unsigned : forall v, 0 <= v ->
+  exists w, convert_int v None false = Some (v, w) /\ wf (v, w) /\ (forall w', 1 <= w' -> v < 2 ^ w' -> w <= w').
+Proof. exact KindsProofs.const_int_unsigned. Qed.
+Print Assumptions C06_const_int_unsigned.
+
+Theorem C06_const_int_signed : forall v,
+  exists r, convert_int v None true = Some r /\ wf r /\ sval r = v.
+Proof. exact KindsProofs.const_int_signed. Qed.
+Print Assumptions C06_const_int_signed.
+
+Theorem C06_const_bool : forall b, as_wires (OBool b) None = Some (b2z b, 1).
+Proof. exact KindsProofs.const_bool. Qed.
+Print Assumptions C06_const_bool.
+
+Theorem C06_const_vstr : forall bw num, 1 <= bw -> 0 <= num < 2 ^ bw ->
+  as_wires (OVStr false bw num) None = Some (num, bw).
+Proof. exact KindsProofs.const_vstr. Qed.
+Print Assumptions C06_const_vstr.
+
+(* ------------------------------------------------------------------ non-vacuity *)
+Example C06_example_wf : wf (5, 3) /\ wf (20, 5) /\ wf (0, 1) /\ wf (2 ^ 130 - 1, 130).
+Proof. repeat split; vm_compute; congruence. Qed.
+
+Example C06_example_ops :
+  op_add (5, 3) (20, 5) = (25, 6) /\ op_sub (5, 3) (20, 5) = (49, 6) /\ op_mul (5, 3) (20, 5) = (100, 10) /\
+  signed_lt (5, 3) (20, 5) = (0, 1) /\ signed_add (5, 3) (20, 5) = (49, 6) /\
+  getitem (11, 4) (ISlice None None (Some (-1))) = Some (13, 4) /\
+  shift_right_arithmetic (9, 4) (6, 3) = (15, 4) /\ shift_left_logical (5, 4) (1, 3) = (10, 4) /\
+  barrel_shifter (5, 4) (1, 1) (1, 1) (9, 7) = (15, 4).
+Proof. vm_compute. repeat split; reflexivity. Qed.
